@@ -138,7 +138,12 @@ fn conv_lift(e: &compiler::lift::LiftExpr) -> U {
     if let Some(u) = conv_common!(e, X, conv_lift) {
         return u;
     }
-    unreachable!()
+    match e {
+        // a closure as a function value: the ANF checker compares it with the closure's function
+        X::EClosureFn { closure, ty } => U::Opaque { subs: vec![conv_lift(closure)], ty: ty.clone() },
+        #[allow(unreachable_patterns)]
+        _ => unreachable!(),
+    }
 }
 
 pub fn ty_eq(a: &Ty, b: &Ty) -> bool {
